@@ -205,6 +205,19 @@ def gen_C02(rng, tier, cfg):
                 p = rng.below(2**16)
                 ops.append(seek_op(rng, 0, p, "u64"))
                 ops.append("chacha applypat 0 %d 5" % rng.choice([1, 63, 64, 65, 300]))
+            # one very long request in a single call (2^24 bytes; thorough: also > 2^32 bytes), from a
+            # mid-block position; both ends of the output and the position afterwards are compared
+            ops.append("chacha new 0 %s %s %s" % (v, hx(struct_bytes(rng, 32)), hx(struct_bytes(rng, NONCE[v]))))
+            ops.append(seek_op(rng, 0, rng.choice([0, 37, 2**32 * 64 - 2**23 - 5]), "u64"))
+            ops.append("chacha bigapply 0 %d" % (2**24 + 100 + rng.below(64)))
+            ops.append("chacha pos 0 u128")
+            ops.append("chacha applypat 0 70 9")
+            stats["big_requests"] = stats.get("big_requests", 0) + 1
+            if tier == "thorough" and v in ("chacha20", "ietf", "xchacha8"):
+                ops.append(seek_op(rng, 0, rng.choice([11, 2**37 - 2**31]), "u64"))
+                ops.append("chacha bigapply 0 %d" % (2**32 + 100 + rng.below(64)))
+                ops.append("chacha pos 0 u128")
+                ops.append("chacha applypat 0 70 9")
     return ops, stats
 
 
